@@ -3,7 +3,7 @@
 # (scratch worktree, removed afterwards); prints "<id> clean=<rc> patched=<rc>". A seed stays valid iff clean=0 and patched!=0.
 s="$1"; D=/verif/seeded/$s; W=/tmp/reconf_$s.$$
 git -C /repo worktree add -q --detach "$W" HEAD || exit 2
-run() { env PYTHONPATH="$W:/tmp/seed_env/stubs" PROTOCOL_BUFFERS_PYTHON_IMPLEMENTATION=python PYTHONHASHSEED=0 PYTHONDONTWRITEBYTECODE=1 timeout 900 /venv/bin/python -W ignore "$D/demo.py" "$W" > /dev/null 2>&1; }
+run() { env PYTHONPATH="$W:/verif/harness/stubs" PROTOCOL_BUFFERS_PYTHON_IMPLEMENTATION=python PYTHONHASHSEED=0 PYTHONDONTWRITEBYTECODE=1 timeout 900 /venv/bin/python -W ignore "$D/demo.py" "$W" > /dev/null 2>&1; }
 run; c=$?
 if ( cd "$W" && git apply "$D/patch.diff" 2>/dev/null ); then run; p=$?; else p=NOAPPLY; fi
 git -C /repo worktree remove --force "$W"
